@@ -23,6 +23,9 @@ REQUIRED_CLASSES = ["nontrivial", "jerk_pos", "jerk_neg", "jerk_mod6_nonzero", "
 QUICK_SHARDS = 4
 
 ebb_calc = sut.load("ebb_calc")
+OPTION_PROBES = [(ebb_calc.move_dist_t3, ["time", "rate", "accel", "jerk", "accum"], [20, 1000, 5, 1]),
+                 (ebb_calc.rate_t3, ["time", "rate", "accel", "jerk"], [20, 1000, 5, 1])]
+
 
 
 def body(ctx, case):
